@@ -104,7 +104,8 @@ def dep_spec(draw, family, pname, x0, x1, nontrivial=True, saturating_only=False
     v0 = _map_range(u0, rlo, rhi, log)
     v1 = _map_range(u1, rlo, rhi, log)
     k = draw(st.floats(0, 1))
-    if v0 == v1:
+    if abs(v0 - v1) <= 1e-9 * max(abs(v0), abs(v1), 1e-3):  # (nearly) equal end values: the shape solvers would divide by / take the log of 0
+        v1 = v0
         shape = "const1"
     elif saturating_only:
         # the variable is itself a conditioner: keep its parameters bounded for every conditioning
